@@ -99,6 +99,19 @@ CLAIMS["C11"] = dict(
     design_ref="DESIGN.md §3 C11",
 )
 
+CLAIMS["C06"] = dict(
+    technique="symbolic evaluation of all 49 IntoStimulus impls against the admissible idioms; interval side-conditions on the constants; field-correspondence lint for into_format",
+    category="proof",
+    text=("For every ordered pair of the seven component formats and all inputs: the impl body must normalise to an admissible form whose range "
+          "argument is discharged from the constants — float->uint: magic-number rounding only when MAX < 2^k (else the rounded, saturating "
+          "cast), applied to S = max(min(x·MAX, MAX), 0) in exactly the NaN-safe nesting (NaN, +inf, x>=1 -> MAX; x<=0, -inf -> 0; no negative "
+          "value reaches to_bits); uint->float = x/MAX (0 -> 0, MAX -> 1); widening = (x<<BITS)|x with MAX_t = MAX_s·(2^BITS+1), longer steps "
+          "through the next width; narrowing = cast(clamp(round(x·MAX_t/MAX_s))) with MAX_s/MAX_t integral, hence narrow(widen(x)) = x; "
+          "max_intensity is 1 / MAX; all 34 into_format/from_format methods map each component of the same field through "
+          "FromStimulus/FromAngle. Does not decide nearest-integer claims that depend on floating-point rounding of x·MAX."),
+    design_ref="DESIGN.md §3 C06",
+)
+
 NOT_YET = "check under construction (see DESIGN.md §7 build order); will be claimed when its rule is armed"
 NA = {}
 
